@@ -91,7 +91,9 @@ Proof. intros ws rest. apply skipn_app_exact. apply enc_words_length. Qed.
 
 Ltac closed_nat :=
   repeat match goal with
-  | |- context [N.to_nat (4 * ?n)] => let v := eval vm_compute in (N.to_nat (4 * n)) in change (N.to_nat (4 * n)) with v
+  | |- context [N.to_nat (4 * ?n)] =>
+      lazymatch n with Npos _ => idtac | N0 => idtac end;
+      let v := eval vm_compute in (N.to_nat (4 * n)) in change (N.to_nat (4 * n)) with v
   end.
 
 Theorem spec_decode_enc_spec : forall a, abs_wf a -> spec_decode (enc_spec a) = Some a.
